@@ -120,6 +120,10 @@ def library_pool(with_doit: bool = True) -> list[dict]:  # noqa: PLR0914, PLR091
     add("PoolSum", PoolSum(x**i * ff.BlattWeisskopfSquared(z, j), (i, [0, 1, 2]), (j, [1, 3])))
     add("PoolSum(Rational)", PoolSum(sp.Abs(sp.IndexedBase("A")[i, j]) ** 2,
                                      (i, [sp.Rational(-1, 2), sp.Rational(1, 2)]), (j, [-1, 0, 1])))
+    from ampform.helicity.align._spin import create_spin_range  # noqa: PLC0415
+
+    add("PoolSum(float half-integers)", PoolSum(x**i * y**j, (i, create_spin_range(0.5)), (j, create_spin_range(1.5))))
+    add("PoolSum(float)", PoolSum(sp.Abs(sp.IndexedBase("A")[i]) ** 2, (i, [-1.0, 0.0, 1.0])))
     add("UnevaluatableIntegral", UnevaluatableIntegral(ps.PhaseSpaceFactor(x, m1, m2) / (x - s), (x, m1**2, sp.oo)))
     add("ComplexSqrt", ComplexSqrt(x - ps.BreakupMomentumSquared(s, m1, m2)))
     add("ArraySum", ae.ArraySum(p0, p1, p2))
